@@ -368,6 +368,27 @@ def run_js(res, spec):
                     wk = [k for k in util.warning_kinds(o['wwarnings']) + util.warning_kinds(o['rwarnings']) if not (ragged and k == 'fields')]
                     if wk:
                         res.violation('js-warning-on-representable-table', 'JS: representable %r (%s %r %s) warned %r %r' % (t, policy, dlm, enc, o['wwarnings'], o['rwarnings']), case)
+        if spec['i'] % 3 == 1:
+            # lines longer than the stream's high-water mark (16 KiB): a header of thousands of columns handed to set_header(), cells of tens of
+            # kilobytes - every line still ends with its own terminator, in the order written
+            wide = []
+            for ncols, policy, dlm in ((2500, 'quoted', ','), (1800, 'simple', '\t'), (3000, 'quoted_rfc', ';'), (40, 'quoted', ',')):
+                names = ['column_%04d' % j for j in range(ncols)]
+                rows = [['r%dc%d' % (i, j) for j in range(ncols)] for i in range(rng.randrange(1, 4))]
+                if ncols == 40:
+                    rows = [[('x' * 20000 if j == 3 else 'v') for j in range(ncols)] for _i in range(3)]
+                wide.append({'table': rows, 'header': names, 'delim': dlm, 'policy': policy, 'line_separator': rng.choice(['\n', '\r\n']), 'encoding': 'utf-8', 'also_stream': False, 'async_sink': True})
+            wide += [dict(c, async_sink=False) for c in wide[:2]]
+            outs = node.call({'op': 'roundtrip_batch', 'cases': wide})['results']
+            for c, o in zip(wide, outs):
+                res.evaluations += 1
+                res.count('js_wide_line_roundtrips')
+                exp = [c['header']] + c['table']
+                if o['werror'] is not None or o['rerror'] is not None or o['records'] != exp or util.warning_kinds(o['wwarnings']) or util.warning_kinds(o['rwarnings']):
+                    got = o['records'] or []
+                    res.violation('js-wide-line-roundtrip-differs', 'JS: a header of %d names (line of %d bytes) + %d records (%s %r) read back as %d records of widths %r (errors %r / %r, warnings %r / %r)' % (
+                        len(c['header']), len(c['delim'].join(c['header'])), len(c['table']), c['policy'], c['delim'], len(got), [len(r) for r in got][:6], o['werror'], o['rerror'], o['wwarnings'], o['rwarnings']),
+                        {'engine': 'js', 'leg': 'wide-lines', 'columns': len(c['header']), 'records': len(c['table']), 'policy': c['policy'], 'dlm': c['delim']})
         noise = node.take_noise()
         if noise:
             res.notes.append('node async noise: %r' % noise[:2])
@@ -513,7 +534,7 @@ def summarize(tier, seed, m):
     return {
         'rule': 'exhaustive small tables (1x1 with fields up to length %d, 1x2 / 2x1 up to length 2, 2x2 and ragged up to length 1) over {quote, space, tab, CR, LF, a, e-acute, delimiter characters} for each of %d dialects (policies simple/quoted/quoted_rfc x delimiters %r, whitespace, monocolumn) x line separators x encodings {None, utf-8, latin-1}; random larger tables incl. None cells; a table holding all 256 latin-1 code points; file-to-file leg through query_csv; JS writer/reader leg. Representability decided by the reference writer/reader pair. JS: tables of 4097-9000 short records (thousands per stream chunk) written and read back by the bulk and the stream reader; py: values that are not strings when they reach the writer (numbers, tuples, dicts, dates, decimals, bytes, ranges, nested lists) under the quoted policies with delimiters that occur in their text - the file reads back as the texts; distinct_nontrivial = distinct representable (table, dialect) cases containing at least one special character.' % (3 if tier == 'quick' else 4, len(dialects()), DELIMS),
         'exhaustive': True,
-        'required': ['nonstring_quoted_roundtrips', 'js_nonstring_quoted_roundtrips', 'js_long_narrow_tables', 'nonstring_delimiter_clause_checks', 'js_nonstring_delimiter_clause_checks', 'header_delimiter_clause_checks', 'js_stream_roundtrips', 'representable_roundtrips', 'delimiter_clause_checks', 'none_clause_checks', 'file_to_file_runs', 'latin1_all_byte_tables'],
+        'required': ['nonstring_quoted_roundtrips', 'js_nonstring_quoted_roundtrips', 'js_wide_line_roundtrips', 'js_long_narrow_tables', 'nonstring_delimiter_clause_checks', 'js_nonstring_delimiter_clause_checks', 'header_delimiter_clause_checks', 'js_stream_roundtrips', 'representable_roundtrips', 'delimiter_clause_checks', 'none_clause_checks', 'file_to_file_runs', 'latin1_all_byte_tables'],
         'assumptions': ['rv.model.refcsv write_table/read_text decide representability exactly as the quantifier prescribes'],
     }
 
